@@ -9,6 +9,7 @@ package c11
 import (
 	"context"
 	"fmt"
+	"reflect"
 	"runtime"
 	"strings"
 	"sync"
@@ -39,7 +40,22 @@ type siteCtx struct {
 	ctx context.Context
 	tag *log.Tag
 	exp []expect
+	n   int
 }
+
+// wantFunc records the expectation "entry line of fn + off" (for helpers too small to carry a want call).
+func (c *siteCtx) wantFunc(id int, fn func(*siteCtx), off int) {
+	pc := reflect.ValueOf(fn).Pointer()
+	f := runtime.FuncForPC(pc)
+	file, line := f.FileLine(f.Entry())
+	c.exp = append(c.exp, expect{id, file, line + off})
+}
+
+// counterG and bump: argument-less inlinable code, so that the instruction right after a log
+// call's return address can belong to an inlined body.
+var counterG int
+
+func bump() { counterG++ }
 
 type pos struct {
 	file string
